@@ -16,7 +16,11 @@ times_mono times_strictMono times_mem_Icc times_append_left times_append_right t
 arbUcurr_entries arbIdx_eq arbIdx_eq_zero propagatorAtArbT_spec propagatorAtArbT_spec_zero
 propagatorAtArbT_at_zero propagatorAtArbT_edge segment_start_value propagatorAtArbT_beyond
 propagatorAtArbT_isSome propagatorAtArbT_is_exp propagatorAtArbT_hasDerivAt
-propagatorAtArbT_tendsto_right '''.split()
+propagatorAtArbT_tendsto_right '''.split() + [
+    # the propagators do not depend on which eigen-decomposition LAPACK returns (module Props/C13Prop)
+    'FFVerif.C13.segment_propagator_unique', 'FFVerif.C13.piecewise_unique',
+    'FFVerif.C13.propagators_unique']
+LEAN_MODULES = ['FFVerif.Props.C02', 'FFVerif.Props.C13Prop']
 PINS = ['pinDiagonalize', 'pinPropagatorAtArbT', 'pinConcatenate', 'C02_source_shape']
 GEN_SITES = ['einsum:numeric_diagonalize_0', 'einsum:pulse_sequence_PulseSequence_diagonalize_0',
              'einsum:pulse_sequence_PulseSequence_propagator_at_arb_t_0']
